@@ -406,7 +406,7 @@ def r12_l(run, fx, floors):
             if floors:
                 run.anchor_missing(rule, path)
             continue
-        items, why = layout.reader_items(fx, b)
+        items, why = layout.reader_items(fx, b, through_checks=True)
         items = [it for it in items if it.kind in ("prim", "type")]
         n += 1
         probs = []
